@@ -55,6 +55,13 @@ func ParsesAsFile(text string) string {
 	return ""
 }
 
+// ParsesAsExpr reports whether text is a Go expression (what a :literal must be). On symbolic text
+// the engine answers with the same arbitrary-but-consistent predicate it uses for go/parser.ParseExpr.
+func ParsesAsExpr(text string) bool {
+	_, err := parser.ParseExpr(text)
+	return err == nil
+}
+
 // Gofmt returns text formatted by go/format (what the generator's last stage does), or text itself
 // when it does not parse.
 func Gofmt(text string) string {
